@@ -6,7 +6,7 @@
    (factory params, whitelist view / collection creator), and what the implementation
    did: ok/err, the token it minted and its owner in the collection, the observation
    vector of the minter's queries after the step, balances after the step. *)
-From LP Require Import Num Pay Sg1 Bank MinterVending MinterOpen.
+From LP Require Import Num Pay Sg1 Bank MinterVending MinterOpen MinterMigrate.
 
 Record oestep := mkOStep {
   os_env : env; os_fp : ofparams; os_wv : option wlview; os_op : eop;
@@ -28,10 +28,21 @@ Record bastep := mkBStep {
 (* OECaseM = OECase plus the metadata configuration (minter Config.nft_data) and, for every
    token the collection holds at the end of the history (ascending id), what the
    collection stores for it: owner, token_uri, extension (AllNftInfo) *)
+(* a migration of the open-edition minter inside a history (not an `eop`; see SaleCorr.smig) *)
+Record omig := mkOMig {
+  om_now : N; om_name_ok : bool; om_stored : option (N * N * N); om_admin : bool;
+  om_ok : bool;
+  om_fp : ofparams; om_wv_after : option wlview;
+  om_obs : list N;
+  om_bal : bal
+}.
+
+Inductive oitem := OIStep (st : oestep) | OIMigrate (m : omig).
+
 Inductive oecase :=
-| OECase (vr : ovariant) (init : ostate) (b : bal) (accts : list addr) (steps : list oestep)
+| OECase (vr : ovariant) (init : ostate) (b : bal) (accts : list addr) (steps : list oitem)
 | BaseCase (init : bstate) (b : bal) (steps : list bastep)
-| OECaseM (nft : nft_cfg) (vr : ovariant) (init : ostate) (b : bal) (accts : list addr) (steps : list oestep)
+| OECaseM (nft : nft_cfg) (vr : ovariant) (init : ostate) (b : bal) (accts : list addr) (steps : list oitem)
           (stored : list omint).
 
 Definition opt_n (o : option N) : list N := match o with Some x => [1; x] | None => [0; 0] end.
@@ -88,11 +99,21 @@ Definition base_world_step (s : bstate) (b : bal) (st : bastep) : result (bstate
   Ok (s', b2, ms).
 
 (* result: index of the first diverging step, if any *)
-Fixpoint oe_run_steps (vr : ovariant) (accts : list addr) (s : ostate) (b : bal) (steps : list oestep) (i : N)
+Definition omigrate_agrees (vr : ovariant) (accts : list addr) (s : ostate) (b : bal) (m : omig) : bool :=
+  list_eqb N.eqb (oe_observe vr s (om_fp m) (om_wv_after m) accts) (om_obs m) && bal_agrees b (om_bal m).
+
+(* a migration moves no funds and emits no message *)
+Definition oe_migrate_item (vr : ovariant) (accts : list addr) (s : ostate) (b : bal) (m : omig) : option ostate :=
+  match o_minter_migrate vr (om_now m) (om_name_ok m) (om_stored m) (om_admin m) s with
+  | Err => if om_ok m then None else if omigrate_agrees vr accts s b m then Some s else None
+  | Ok s' => if negb (om_ok m) then None else if omigrate_agrees vr accts s' b m then Some s' else None
+  end.
+
+Fixpoint oe_run_steps (vr : ovariant) (accts : list addr) (s : ostate) (b : bal) (steps : list oitem) (i : N)
   : option N :=
   match steps with
   | [] => None
-  | st :: rest =>
+  | OIStep st :: rest =>
       match oe_world_step vr s b st with
       | Err =>
           if os_ok st then Some i
@@ -105,6 +126,11 @@ Fixpoint oe_run_steps (vr : ovariant) (accts : list addr) (s : ostate) (b : bal)
                   && list_eqb N.eqb (oe_observe vr s' (os_fp st) (os_wv_after st) accts) (os_obs st)
                   && bal_agrees b' (os_bal st)
                then oe_run_steps vr accts s' b' rest (i + 1) else Some i
+      end
+  | OIMigrate m :: rest =>
+      match oe_migrate_item vr accts s b m with
+      | Some s' => oe_run_steps vr accts s' b rest (i + 1)
+      | None => Some i
       end
   end.
 
@@ -138,10 +164,10 @@ Definition oe_world_step_nft (c : nft_cfg) (vr : ovariant) (s : ostate) (b : bal
   Ok (s', b2, ms, mm).
 
 Fixpoint oe_run_steps_nft (c : nft_cfg) (vr : ovariant) (accts : list addr) (s : ostate) (b : bal)
-         (steps : list oestep) (i : N) (acc : list omint) : option N * list omint :=
+         (steps : list oitem) (i : N) (acc : list omint) : option N * list omint :=
   match steps with
   | [] => (None, rev acc)
-  | st :: rest =>
+  | OIStep st :: rest =>
       match oe_world_step_nft c vr s b st with
       | Err =>
           if os_ok st then (Some i, rev acc)
@@ -154,6 +180,11 @@ Fixpoint oe_run_steps_nft (c : nft_cfg) (vr : ovariant) (accts : list addr) (s :
                   && list_eqb N.eqb (oe_observe vr s' (os_fp st) (os_wv_after st) accts) (os_obs st)
                   && bal_agrees b' (os_bal st)
                then oe_run_steps_nft c vr accts s' b' rest (i + 1) (rev_append mm acc) else (Some i, rev acc)
+      end
+  | OIMigrate m :: rest =>
+      match oe_migrate_item vr accts s b m with
+      | Some s' => oe_run_steps_nft c vr accts s' b rest (i + 1) acc
+      | None => (Some i, rev acc)
       end
   end.
 
